@@ -460,7 +460,28 @@ class _SymMixin:
         raise NotEncodable("float() of a symbolic number (use the float shim)")
 
     def __round__(self, n: Any = None) -> Any:
-        raise NotEncodable("round() of a symbolic number")
+        """round(x[, n]) over the reals: nearest multiple of 10**-n, ties to even."""
+        if is_sym(n):
+            raise NotEncodable("round() to a symbolic number of digits")
+        kind = kind_of(self)
+        if kind == "int":
+            if n is None or n >= 0:
+                return self
+            raise NotEncodable("round() of a symbolic int to negative digits")
+        ctx().stubs_used.add("round(x, n): nearest multiple of 10**-n over the reals, ties to even")
+        scale = Fraction(10) ** (n or 0)
+        t = real(self.t) * q(scale)
+        f = z3.ToInt(t + q(Fraction(1, 2)))
+        r = z3.If(z3.And(z3.ToReal(f) == t + q(Fraction(1, 2)), f % 2 == 1), f - 1, f)
+        if n is None:
+            return SInt(r)
+        return mk(kind, z3.ToReal(r) / q(scale))
+
+    def __floor__(self) -> Any:
+        return SInt(z3.ToInt(real(self.t)))
+
+    def __ceil__(self) -> Any:
+        return SInt(-z3.ToInt(-real(self.t)))
 
     def __trunc__(self) -> Any:
         raise NotEncodable("trunc() of a symbolic number")
@@ -525,6 +546,9 @@ LN = z3.Function("ln", z3.RealSort(), z3.RealSort())
 EXP = z3.Function("exp", z3.RealSort(), z3.RealSort())
 
 
+E_CONST = z3.simplify(z3.RealVal(str(Fraction(_math.e))))
+
+
 def ln_term(x: z3.ArithRef) -> z3.ArithRef:
     """ln(x) as an uninterpreted application with the instance axioms used here."""
     c = ctx()
@@ -532,6 +556,7 @@ def ln_term(x: z3.ArithRef) -> z3.ArithRef:
     x = z3.simplify(real(x))
     y = LN(x)
     c.axiom(z3.Implies(x > 0, EXP(y) == x), ("expln", x.get_id()))
+    c.axiom(LN(E_CONST) == 1, ("lne",))        # math.e stands for e: math.log(x) == math.log(x, math.e)
     c.axiom(z3.Implies(x > 1, y > 0), ("lnpos", x.get_id()))
     c.axiom(z3.Implies(x == 1, y == 0), ("ln1", x.get_id()))
     c.axiom(z3.Implies(z3.And(x > 0, x < 1), y < 0), ("lnneg", x.get_id()))
@@ -745,9 +770,26 @@ class MathShim:
     def __init__(self) -> None:
         for name in dir(_math):
             if not name.startswith("_"):
-                setattr(self, name, getattr(_math, name))
+                obj = getattr(_math, name)
+                setattr(self, name, self._guard(name, obj) if callable(obj) else obj)
         self.sqrt = sym_sqrt
         self.log = sym_log
+        self.log10 = lambda x: sym_log(x, 10)
+        self.log2 = lambda x: sym_log(x, 2)
+        self.exp = lambda x: _pow(_math.e, x) if is_sym(x) else _math.exp(x)
+        self.pow = lambda a, b: (_pow(a, b) if (is_sym(a) or is_sym(b)) else _math.pow(a, b))
+        self.fabs = lambda x: abs(x) if is_sym(x) else _math.fabs(x)
+        self.floor = lambda x: x.__floor__() if is_sym(x) else _math.floor(x)
+        self.ceil = lambda x: x.__ceil__() if is_sym(x) else _math.ceil(x)
+
+    @staticmethod
+    def _guard(name: str, fn: Any) -> Any:
+        """Any other math function must not be handed a proxy (C code would read NaN)."""
+        def wrapped(*a: Any, **k: Any) -> Any:
+            if any(is_sym(v) for v in a) or any(is_sym(v) for v in k.values()):
+                raise NotEncodable(f"math.{name} of a symbolic number has no model")
+            return fn(*a, **k)
+        return wrapped
 
 
 class Shims:
@@ -1101,6 +1143,30 @@ def selftest() -> int:
             cases += 1
         if not isinstance(p.result["dec"], Decimal) or not isinstance(p.result["sqrt"], float):
             raise HarnessError("selftest: kinds")
+    # round / floor / ceil (values whose decimal rounding is exact in binary)
+    import math as _m
+    for a in (0.5, 1.5, 2.5, -0.5, -1.5, 2.25, 2.75, -2.25, 0.125, 0.375, 7.0, -3.0, 1234.5678):
+        def run_r() -> Any:
+            x = sym("float", "x")
+            return {"r0": round(x), "r1": round(x, 1), "r2": round(x, 2), "fl": _m.floor(x) if False else x.__floor__(),
+                    "ce": x.__ceil__()}
+
+        ex = explore(run_r, assumptions=[z3.Real("x") == q(a)])
+        p = ex.paths[0]
+        if len(ex.paths) != 1 or p.exc is not None:
+            raise HarnessError(f"selftest: round paths {a}")
+        want_r = {"r0": round(a), "fl": _m.floor(a), "ce": _m.ceil(a)}
+        # ties at one or two digits are decided by the binary value in CPython: compare only exact cases
+        from decimal import Decimal as _D, ROUND_HALF_EVEN as _RHE
+        want_r["r1"] = Fraction(_D(a).quantize(_D("0.1"), rounding=_RHE))
+        want_r["r2"] = Fraction(_D(a).quantize(_D("0.01"), rounding=_RHE))
+        if float(want_r["r1"]) != round(a, 1) or float(want_r["r2"]) != round(a, 2):
+            raise HarnessError(f"selftest: reference rounding of {a} disagrees with CPython")
+        for k, want in want_r.items():
+            r, _ = P.prove(p.cond, real(term(p.result[k])) == q(want))
+            if r != "unsat":
+                raise HarnessError(f"selftest: {k} wrong for x={a}")
+            cases += 1
     # fork on division by zero and on negative sqrt
     def run3() -> Any:
         x = sym("float", "x")
